@@ -165,7 +165,9 @@ def run(ctx):
         for idx, ((mode, sa, se, o), mo) in enumerate(zip(bcases, mouts)):
             # a few reference / actual paths are used again and again with new contents (as after regeneration or an
             # edit of the reference): a verdict is about what the files hold now
-            refp = os.path.join(tmp, 'ref%d.txt' % (idx % 3 if idx % 2 else idx))
+            # (reference names with other extensions: only a .pdf reference is read as ISO-8859-1, everything else as UTF-8)
+            ext_ = ['txt', 'txt', 'ps', 'eps', 'log', 'tex', 'svg', 'dat'][idx % 8]
+            refp = os.path.join(tmp, 'ref%d.%s' % ((idx % 3 if idx % 2 else idx), ext_))
             actp = os.path.join(tmp, 'act%d.txt' % (idx % 3 if idx % 4 == 1 else idx))
             with open(refp, 'w', encoding='utf-8', newline='') as f:
                 f.write(se)
